@@ -689,7 +689,7 @@ func init() {
 	register("E18", func(tier string, seed uint64) []Case {
 		var cases []Case
 		pk := []string{"pod", "service", "secret", "node", "event", "replicationcontroller", "ingress", "job", "daemonset", "deployment", "replicaset", "statefulset"}
-		n := tierPick(tier, 2, 120)
+		n := tierPick(tier, 2, 400)
 		for _, p := range pk {
 			for i := 0; i < n; i++ {
 				cases = append(cases, e18DiffCase(p, seed, i, "none"))
@@ -710,7 +710,7 @@ func init() {
 		// the eight generated joins (and the double join) as instances of the join
 		// template: E10's scenarios, reported under C20 as well
 		for _, k := range e10Joins {
-			for i := 0; i < tierPick(tier, 4, 40); i++ {
+			for i := 0; i < tierPick(tier, 4, 150); i++ {
 				cases = append(cases, e10As(e10Case(k, seed, i), "C20", nil))
 			}
 		}
